@@ -177,7 +177,18 @@ impl Shared {
         let h0 = model.lms_h(cfg.params[0].lms).unwrap();
         let fresh_len = model.aux_layout(h0, 1 << 22).1 + 7;
         let mut aux = vec![0u8; fresh_len];
-        let kg = lib_api::keygen(cfg.hid, &cfg.params, &seed, Some(&mut aux));
+        // truncated hashes: hand keygen a Seed built through the public Seed::from([u8; 32]) whose bytes
+        // beyond the hash length are non-zero -- the key pair must depend on the first n bytes only, and
+        // signing (which works from the n stored bytes) must match the public key returned here
+        let kg_seed: Vec<u8> = if cfg.hid.n() < 32 {
+            let mut s33 = vec![0xfeu8];
+            s33.extend_from_slice(&seed);
+            s33.extend(det_bytes(cfg.msg_seed, "seed-tail", 32 - cfg.hid.n()).iter().map(|b| b | 1));
+            s33
+        } else {
+            seed.clone()
+        };
+        let kg = lib_api::keygen(cfg.hid, &cfg.params, &kg_seed, Some(&mut aux));
         let (pk, valid_aux) = match kg {
             Res::Ok(o) => {
                 if o.sk != msk {
